@@ -99,17 +99,17 @@ def independent_analysis(model):
 
 
 _W = {
-    'unknown-f': re.compile(r'^Unknown label "(.*)" in function "(.+)" \(index (\d+)\)$'),
+    'unknown-f': re.compile(r'^Unknown label "(.*)" in function "(.*)" \(index (\d+)\)$'),
     'unknown-g': re.compile(r'^Unknown global label "(.*)" \(index (\d+)\)$'),
-    'relabel-f': re.compile(r'^Redefinition of label "(.*)" in function "(.+)" \(index (\d+)\)$'),
+    'relabel-f': re.compile(r'^Redefinition of label "(.*)" in function "(.*)" \(index (\d+)\)$'),
     'relabel-g': re.compile(r'^Redefinition of global label "(.*)" \(index (\d+)\)$'),
-    'refunc': re.compile(r'^Redefinition of function "(.+)" \(index (\d+)\)$'),
-    'duparg': re.compile(r'^Duplicate argument "(.+)" of function "(.+)" \(index (\d+)\)$'),
-    'unused-var': re.compile(r'^Unused variable "(.+)" defined in function "(.+)" \(index (\d+)\)$'),
-    'unused-arg': re.compile(r'^Unused argument "(.+)" of function "(.+)" \(index (\d+)\)$'),
-    'unused-label-f': re.compile(r'^Unused label "(.*)" in function "(.+)" \(index (\d+)\)$'),
+    'refunc': re.compile(r'^Redefinition of function "(.*)" \(index (\d+)\)$'),
+    'duparg': re.compile(r'^Duplicate argument "(.*)" of function "(.*)" \(index (\d+)\)$'),
+    'unused-var': re.compile(r'^Unused variable "(.*)" defined in function "(.*)" \(index (\d+)\)$'),
+    'unused-arg': re.compile(r'^Unused argument "(.*)" of function "(.*)" \(index (\d+)\)$'),
+    'unused-label-f': re.compile(r'^Unused label "(.*)" in function "(.*)" \(index (\d+)\)$'),
     'unused-label-g': re.compile(r'^Unused global label "(.*)" \(index (\d+)\)$'),
-    'pointless-f': re.compile(r'^Pointless statement in function "(.+)" \(index (\d+)\)$'),
+    'pointless-f': re.compile(r'^Pointless statement in function "(.*)" \(index (\d+)\)$'),
     'pointless-g': re.compile(r'^Pointless global statement \(index (\d+)\)$'),
 }
 
